@@ -295,11 +295,11 @@ class EventMixin (object):
       if entry not in self._eventMixin_handlers.get(eventType, ()):
         # Removed (by an earlier handler or a nested raise) in the meantime
         continue
+      if once: self.removeListener(eid)
       if classCall:
         rv = event._invoke(handler, *args, **kw)
       else:
         rv = handler(event, *args, **kw)
-      if once: self.removeListener(eid)
       if rv is None: continue
       if rv is False:
         self.removeListener(eid)
